@@ -27,7 +27,7 @@ fn spec() -> Spec {
             Kind { name: "plans", quick: 220, thorough: 6_000, serial: true },
             Kind { name: "schedules", quick: 30, thorough: 600, serial: true },
         ],
-        rule: "plans: synthetic cell (coarse meshes, tool and base, non-wrapping limits) x stroke generated from joint-space seeds (landing pose, 1..4 stroke poses, parking pose) x obstacle layout (none / grazing the swept tool / blocking the stroke) x start configuration (a landing solution itself / another free posture) x check steps 5 mm..5 cm, cost limits 1..10 degrees, recursion depths 0..8, both interpolation settings; every returned plan is a history checked offline: all waypoints free and within limits, first waypoint == start, flag grammar ONBOARDING* LAND (LIN_INTERP* TRACE)^n LIN_INTERP* PARK, landing / stroke / parking poses reproduced by the reference FK in order, interpolated waypoints on the straight segment (position) and geodesic (rotation) between their anchors with non-decreasing parameter, consecutive Cartesian waypoints within the cost limit, no LIN_INTERP waypoint unless requested; sections the hook reports as closed by RRT are only checked for collisions/limits. schedules: the same deterministic scenario (start = landing solution, no RRT gap closing) in rayon pools 1,2,4,16 x spy delays x repeats must succeed or fail identically. non-trivial = plan returned with >= 1 interpolated Cartesian waypoint (or, without interpolation, >= 2 stroke poses); distinct = hash(waypoints)",
+        rule: "plans: synthetic cell (coarse meshes, tool and base, non-wrapping limits) x stroke generated from joint-space seeds (landing pose, 1..4 stroke poses, parking pose) x obstacle layout (none / grazing the swept tool / blocking the stroke) x start configuration (a landing solution itself / another free posture) x check steps 5 mm..5 cm, cost limits 1..10 degrees, recursion depths 0..8, both interpolation settings; every returned plan is a history checked offline: all waypoints free and within limits, first waypoint == start, flag grammar ONBOARDING* LAND (LIN_INTERP* TRACE)^n LIN_INTERP* PARK, landing / stroke / parking poses reproduced by the reference FK in order, interpolated waypoints on the straight segment (position) and geodesic (rotation) between their anchors with non-decreasing parameter, consecutive Cartesian waypoints within the cost limit, no LIN_INTERP waypoint unless requested; sections the hook reports as closed by RRT are only checked for collisions/limits. schedules: the same deterministic scenario (start = landing solution, no RRT gap closing) in rayon pools 1,2,4,16 x spy delays x repeats must succeed or fail identically. non-trivial = plan returned with >= 1 interpolated Cartesian waypoint (or, without interpolation, >= 2 stroke poses); distinct = hash(waypoints) Workload additions: configured transition coefficients (0.3..4 per joint) in half of the free-form scenarios; layout landing_grazing (obstacle inside the tool's safety distance at the landing pose only); off-origin obstacle meshes.",
         assumptions: vec![
             "reference FK = base * chain * tool of the cell; pose tolerance 1e-5 m / 1e-5 rad; segment tolerance 2e-6 m; cost slack 1e-12",
             "'free of collisions' is the same robot's collides() (C10 covers its agreement with geometry)",
@@ -157,6 +157,45 @@ pub fn gen_scenario(rng: &mut Rng, idx: u64, for_schedules: bool) -> Option<Scen
         }
         f?
     };
+    // two more start classes (free-form scenarios only)
+    let mut cell = cell;
+    let (mut from, mut start_class) = (from, start_class);
+    if !for_schedules && layout != "landing_grazing" {
+        match rng.usize(10) {
+            // jogged by hand to roughly the landing posture: a fraction of an RRT step away from it, not identical
+            0 => {
+                let mut f = q_land;
+                for _ in 0..2 {
+                    f[rng.usize(6)] += rng.sign() * rng.range(0.2f64, 0.9).to_radians();
+                }
+                if !cell.build().collides(&f) {
+                    from = f;
+                    start_class = "almost_the_landing_solution";
+                }
+            }
+            // one joint unlimited (from == to), and the start across the +-pi seam from the landing posture in
+            // another joint: the landing solution nearest to the start lies a turn away, beyond the forbidden zone
+            1 => {
+                let k = rng.usize(6);
+                if let Some(j) = (0..6).find(|j| *j != k && q_land[*j].abs() > 2.0) {
+                    let (mut lf, mut lt) = ([-3.0; 6], [3.0; 6]);
+                    lf[k] = 0.0;
+                    lt[k] = 0.0;
+                    let mut f = q_land;
+                    f[j] = -q_land[j].signum() * rng.range(2.75, 2.95);
+                    let saved = cell.constraints;
+                    cell.constraints = Constraints::new(lf, lt, 0.0);
+                    if !cell.build().collides(&f) {
+                        from = f;
+                        start_class = "across_the_seam_with_an_unlimited_joint";
+                    } else {
+                        cell.constraints = saved;
+                    }
+                }
+            }
+            _ => {}
+        }
+    }
     // (schedule scenarios: always sparse, so that every branch passes the continuity phase without
     // random gap closing and only the collision check separates good from bad strategies)
     let sparse = for_schedules || rng.usize(3) == 0;
